@@ -69,6 +69,17 @@ Theorem C02_forest_preserved_refuted : exists cfg w e cmd um,
 Proof. exact forest_preserved_refuted. Qed.
 Print Assumptions C02_forest_preserved_refuted.
 
+(* mount is outside in_scope for a reason: an export line may name any absolute target, e.g.
+   <layers>/z/layerconfig; `mount a` then succeeds and creates a "layer" z with a missing base *)
+Theorem C02_forest_mount_refuted : exists cfg w e cmd um,
+  (cfg_ok cfg && fs_ok cfg (wo_fs w) && kernel_wf w && names_distinct cfg w && paths_distinct w
+   && C02.forest_ok cfg (wo_fs w)) = true /\
+  e_pretend e = false /\ e_fault e = NoFault /\
+  v_res (view_of_model cfg w e cmd um) = ROk /\
+  C02.forest_ok cfg (wo_fs (v_after (view_of_model cfg w e cmd um))) = false.
+Proof. exact forest_mount_refuted. Qed.
+Print Assumptions C02_forest_mount_refuted.
+
 (* the frame lemma: what a fresh FindLayers sees depends only on the names directly under the layers
    directory and on what stat / read of their layerconfig files return *)
 Theorem C02_frame : forall c f f',
